@@ -9,8 +9,9 @@ import (
 	"sync"
 	"time"
 
-	"github.com/go-critic/go-critic/checkers"
 	"github.com/go-critic/go-critic/linter"
+
+	"verifharness/internal/load"
 )
 
 // Fset is shared by everything the harness parses (token.FileSet is synchronised).
@@ -23,11 +24,7 @@ var initOnce sync.Once
 
 // Infos returns all registered checkers (hand-written + embedded rule groups).
 func Infos() []*linter.CheckerInfo {
-	initOnce.Do(func() {
-		if err := checkers.InitEmbeddedRules(); err != nil {
-			panic(err)
-		}
-	})
+	initOnce.Do(load.InitRules)
 	var out []*linter.CheckerInfo
 	for _, info := range linter.GetCheckersInfo() {
 		if strings.HasPrefix(info.Name, "zzProbe") {
